@@ -133,7 +133,10 @@ func observePair(f univ.Flavor, a, b []*univ.Slot) string {
 func h64(s string) uint64 {
 	h := fnv.New64a()
 	h.Write([]byte(s))
-	return h.Sum64()
+	if v := h.Sum64(); v != 0 {
+		return v
+	}
+	return 1 // 0 is reserved for "not evaluated"
 }
 
 // caseList enumerates the cases of a plan deterministically.
@@ -326,21 +329,30 @@ func run(c *core.Ctx) {
 			os.Exit(2)
 		}
 		off := 0
-		compared := 0
+		compared, skipped := 0, 0
 		for pi, d := range all {
 			for i := range d {
 				if off+8 > len(buf) {
 					fmt.Fprintln(os.Stderr, "C08: digest stream too short (enumerations differ between builds)")
 					os.Exit(2)
 				}
-				if binary.LittleEndian.Uint64(buf[off:]) != d[i] {
+				// a digest of 0 means "not evaluated": the time budget of this process or of
+				// the protoreflect child ran out before the case (only seen on a loaded
+				// machine); such cases are not compared and the run is not exhaustive
+				if other := binary.LittleEndian.Uint64(buf[off:]); other == 0 || d[i] == 0 {
+					skipped++
+				} else if other != d[i] {
 					c.Violation(fmt.Sprintf("default build vs protoreflect build differ type=%s case=%s", plans(c)[pi].name, names[pi][i]), nil)
 				}
 				off += 8
 				compared++
 			}
 		}
-		c.Extra("cross_build_cases_compared", compared)
+		c.Extra("cross_build_cases_compared", compared-skipped)
+		if skipped > 0 {
+			c.Extra("cross_build_cases_not_evaluated_before_the_budget_ran_out", skipped)
+			c.Exhaustive = false
+		}
 	}
 	c.Bounds["plans"] = planOut
 	c.Assume("unknown-field tags are compared after minimal re-encoding (the statement allows this normalisation); decoding here uses NoLazyDecoding (lazy vs eager is C17)")
